@@ -390,10 +390,12 @@ func checkCut(cmds []wcmd, k int, dr *donorRun, st *cutStats) []Failure {
 			st.applies++
 		}
 		if res != dr.results[i] && strings.Contains(res, "peering secret is already in use") && !strings.HasPrefix(dr.results[i], "error:") {
-			// consequence of the dialer-secret finding: the restore recorded a dialing peer's stream
-			// secret as a used UUID, so the restored server refuses a generated secret with that id
-			// (the generator draws secrets from a pool of four; real ids are random UUIDs)
-			out = append(out, Failure{Cut: k, Stage: "suffix-result", Signature: map[string]any{"kind": maskKind[mDialerSecret]},
+			// consequence of the orphan-secret finding: the restore recorded the secret of a row that
+			// outlived its peering as a used UUID, so the restored server refuses a generated secret
+			// with that id (the generator draws secrets from a pool of four; real ids are random
+			// UUIDs). A dialing peer's secret recorded by the restore (repaired by 2c60efb) already
+			// fails the dump comparison at the cut.
+			out = append(out, Failure{Cut: k, Stage: "suffix-result", Signature: map[string]any{"kind": maskKind[mOrphanSecret]},
 				Detail: fmt.Sprintf("command %d (%s) after the cut: accepted by the donor, refused by the restored server", i, cmds[i].Desc),
 				Extra: map[string]string{"donor": clip(dr.results[i]), "restored": clip(res)}})
 			return out
